@@ -21,7 +21,7 @@ from vf import core
 from vf.ref import excel as ref
 
 ID = 'C15'
-N = {'quick': 2400, 'thorough': 60000}
+N = {'quick': 2000, 'thorough': 40000}
 NT_RULE = ('workbook = sheet name + decoy sheets + comment row or not + header strings + cell matrix, '
            'drawn per case index from a seeded PRNG after a list of directed workbooks; non-trivial = '
            '>=2 data rows, >=1 special column family with a filled cell and >=1 empty cell; distinct = '
@@ -56,7 +56,8 @@ ASSUMPTIONS = [
     'string cells are not blank-only, do not start with "=", are not one of pandas\' default NA markers, '
     'booleans or inf/nan spellings; string cells that spell a number may come back as that number or as '
     'the trimmed string (documentation silent) - both accepted',
-    'an int cell may come back as float / numpy scalar (compared numerically, rel 1e-12)',
+    'an int cell may come back as float / numpy scalar (compared numerically, |got-want| <= 1e-12*max(|got|,|want|), '
+    'no absolute floor; observed maximum on the unchanged tree is 0)',
     'key "model" is optional when only per-mode model columns are filled; the bookkeeping keys '
     '"required"/"optional" of a preset are optional and their values are not asserted',
     'an explicit column wins over the same key of a preset wherever it stands',
@@ -634,7 +635,7 @@ def _num_eq(g, w):
         return True, 0.0
     if math.isnan(g) or math.isnan(w):
         return False, None
-    e = abs(g - w) / max(1.0, abs(g), abs(w))
+    e = abs(g - w) / max(abs(g), abs(w))          # purely relative: NASA coefficients are tiny
     if e <= NUM_TOL and e > _ERR[0]:
         _ERR[0] = e
     return e <= NUM_TOL, e
